@@ -9,6 +9,8 @@
 (*   tick     housekeeping: if now > last + P -> OnInactive:               *)
 (*              plain monitor: close                                        *)
 (*              keep-alive:    fails++, cancel the pending ping,            *)
+(*                             (tick with g = 1: the new ping cannot be    *)
+(*                              written - counted, nothing on the wire)    *)
 (*                             fails > MaxRetries -> close, else new ping   *)
 (* ResetOnTraffic selects what a non-pong message does to the fail count:   *)
 (* TRUE = the statement of C18 ("any answered ping or other received        *)
@@ -29,6 +31,9 @@ Step(m, ev, P, keepAlive, maxRetries, resetOnTraffic, lateIsTraffic) ==
          [] ev.e = "tick" -> IF ev.t > m.last + P
                              THEN IF ~keepAlive THEN [m EXCEPT !.closed = TRUE]
                                   ELSE IF m.fails + 1 > maxRetries THEN [m EXCEPT !.fails = m.fails + 1, !.pending = 0, !.closed = TRUE]
+                                  \* (a tick with g = 1: the ping cannot be written - a transient error of the socket; the expired
+                                  \*  period is counted, nothing is on the wire and nothing is pending)
+                                  ELSE IF ev.g = 1 THEN [m EXCEPT !.fails = m.fails + 1, !.pending = 0]
                                   ELSE [m EXCEPT !.fails = m.fails + 1, !.gen = m.gen + 1, !.pending = m.gen + 1, !.pings = m.pings + 1]
                              ELSE m
 RECURSIVE Run(_, _, _, _, _, _, _, _)
